@@ -32,6 +32,25 @@ class Sym:
         return hash(('Sym', self.name))
 
 
+class Falsy(Sym):
+    """A named opaque value that is not None but false (0, '', Decimal(0), FALSE)."""
+
+
+class Each:
+    """The value of every element of a comprehension over an opaque sequence."""
+    def __init__(self, value):
+        self.value = value
+
+    def __eq__(self, other):
+        return isinstance(other, Each) and other.value == self.value
+
+    def __hash__(self):
+        return hash(('Each', self.value))
+
+    def __repr__(self):
+        return f'each({self.value!r})'
+
+
 class Return(Exception):
     def __init__(self, value):
         self.value = value
@@ -51,6 +70,7 @@ class Machine:
     def __init__(self, call=None, isinstance_=None, subscript=None, names=None, contains=None, expr=None,
                  order=None):
         self.order = order
+        self.comprehensions = False
         self.expr = expr
         self.call = call
         self.isinstance_ = isinstance_
@@ -70,6 +90,9 @@ class Machine:
             raise AnalysisError(f'finite: unbound name {e.id}')
         if isinstance(e, ast.UnaryOp) and isinstance(e.op, ast.Not):
             return not self.truth(self.ev(e.operand, st))
+        if isinstance(e, ast.UnaryOp) and isinstance(e.op, ast.USub):
+            v = self.ev(e.operand, st)
+            return -v if type(v) is int else Sym(f'-{v!r}')
         if isinstance(e, ast.BinOp) and isinstance(e.op, (ast.Add, ast.Sub)):
             l, r = self.ev(e.left, st), self.ev(e.right, st)
             if type(l) is int and type(r) is int:
@@ -115,7 +138,7 @@ class Machine:
         if isinstance(e, ast.Call):
             if isinstance(e.func, ast.Name) and e.func.id == 'isinstance' and self.isinstance_ is not None:
                 return self.isinstance_(self.ev(e.args[0], st), e.args[1])
-            if isinstance(e.func, ast.Name) and e.func.id == 'tuple' and len(e.args) == 1:
+            if isinstance(e.func, ast.Name) and e.func.id in ('tuple', 'list') and len(e.args) == 1:
                 v = self.ev(e.args[0], st)
                 return tuple(v) if isinstance(v, (list, tuple)) else v
             if self.call is not None:
@@ -129,6 +152,11 @@ class Machine:
             return ()
         if isinstance(e, ast.Tuple):
             return tuple(self.ev(x, st) for x in e.elts)
+        if isinstance(e, (ast.GeneratorExp, ast.ListComp)) and len(e.generators) == 1 and not e.generators[0].ifs \
+                and isinstance(e.generators[0].target, ast.Name) and self.comprehensions:
+            st2 = dict(st)
+            st2[e.generators[0].target.id] = Sym('EL:' + ast.unparse(e.generators[0].iter))
+            return Each(self.ev(e.elt, st2))
         if self.expr is not None:
             r = self.expr(e, st, self)
             if r is not NotImplemented:
@@ -137,6 +165,8 @@ class Machine:
 
     @staticmethod
     def truth(v):
+        if isinstance(v, Falsy):
+            return False
         if isinstance(v, Sym):
             return True
         return bool(v)
